@@ -31,6 +31,27 @@ def gen_cases(ctx):
         data = b''.join(frames) + tail
         chunks = wire.cut(rng, data)
         out.append((frames, tail, chunks, 'sampled'))
+    # transport-sized reads: small frames between large ones (run-length payloads of 10-300 KB), cut at the sizes real
+    # transports deliver (16 KiB blocking recv, 64 KiB asyncio / Twisted reads, and odd sizes), so that a chunk leaves
+    # tens of kilobytes of unconsumed input behind frames already yielded
+    for _ in range(ctx.n(30, 300)):
+        frames = []
+        for i in range(rng.randint(3, 9)):
+            if rng.random() < 0.45:
+                n = rng.choice([10000, 16384, 20000, 40000, 65536, 70000, 150000, 300000]) + rng.randint(-3, 3)
+                b = rng.randrange(32, 127)
+                frames.append(bytes(wire.build(3, [b'id', b'ch', bytes([b]) * n]) if rng.random() < 0.7
+                                    else wire.build(0, [bytes([b]) * n])))
+            else:
+                frames.append(wire.gen_frame(rng)[2])
+        tail = b''
+        if rng.random() < 0.6:
+            t = bytes(wire.build(3, [b'i', b'c', bytes([5]) * rng.choice([30000, 90000])]))
+            tail = t[:rng.randrange(1, len(t))]
+        data = b''.join(frames) + tail
+        size = rng.choice([16384, 16384, 32768, 50000, 65536, 65536, 100000, 262144])
+        chunks = [data[i:i + size] for i in range(0, len(data), size)]
+        out.append((frames, tail, chunks, 'read-sized'))
     if ctx.scale == 1:
         # one multi-MiB stream (sampled cuts), run-length payloads
         fr = [bytes(wire.build(3, [b'id', b'ch', bytes([7]) * (wire.limit(3) - 11)])),
